@@ -27,6 +27,14 @@ def leaves(full=True):
         out.append(('CMP', PA, '=', False, ('str', s)))
     out.append(('CMP', PA, '=', False, ('num', 9007199254740993))); out.append(('CMP', PA, '=', False, ('num', 9007199254740992)))
     out.append(('CMP', PA, '=', False, ('num', 1.0)))
+    # value classes of the numeric constants: sign, magnitude, many fraction digits, values Python prints with an exponent
+    for v in (0, -1, 2**63, -2**63, 3.14159265, 0.1234567, -12.00000025, 0.30000001, 0.00001, 123456789012345680.0, -0.5, 100.0):
+        out.append(('CMP', PA, '=', False, ('num', v)))
+    out.append(('CMP', PA, 'IN', False, ('set', (('num', 0.1234567), ('num', -1)))))
+    # index steps: negative, non-zero, wildcard, in the middle and at the end of a path, next to quoted names
+    for steps in ((('key', 'b'), ('idx', '-1')), (('key', 'b'), ('idx', '1')), (('key', 'b'), ('idx', '*')), (('key', 'b'), ('idx', '0')), (('key', 'b'), ('idx', '-1'), ('key', 'c')),
+                  (('key', 'b'), ('idx', '*'), ('key', 'c-d')), (('key', 'x-y'), ('idx', '2')), (('key', 'b'), ('key', 'c'), ('idx', '10'), ('key', 'd')), (('key', 'b_ref'), ('key', 'c'), ('idx', '-2'))):
+        out.append(('CMP', ('a', steps), '=', False, ('num', 1)))
     return out
 
 
@@ -63,6 +71,38 @@ def patterns(tier='quick'):
 
 
 def tree_key(t): return norm_cmp(strip_parens(t))
+
+
+# ------------------------------------------------------------------ single-leaf substitution family (C09 soundness around every rewrite context)
+def _p(*steps): return ('a', tuple(steps))
+PATHS2 = [PA, PC, _p(('key', 'b'), ('idx', '0')), _p(('key', 'b'), ('idx', '1')), _p(('key', 'b'), ('idx', '0'), ('key', 'c')), _p(('key', 'b'), ('idx', '0'), ('key', 'd')),
+          _p(('key', 'b'), ('idx', '1'), ('key', 'c')), _p(('key', 'b'), ('key', 'c')), _p(('key', 'b'), ('key', 'd'))]
+TESTS2 = [('=', False, ('num', 1)), ('=', False, ('num', 2)), ('=', True, ('num', 1)), ('!=', False, ('num', 2)), ('<', False, ('num', 2)), ('IN', False, ('set', (('num', 1), ('num', 2)))),
+          ('IN', True, ('set', (('num', 1), ('num', 2)))), ('>=', True, ('num', 2))]
+
+
+def leaf_pool(): return [('CMP', path, op, neg, rhs) for path in PATHS2 for op, neg, rhs in TESTS2]
+
+
+def contexts():
+    """one-hole contexts (name, leaf -> pattern tree): every place a rewrite of the equivalence normaliser can touch a leaf"""
+    x1 = ('CMP', PC, '=', False, ('num', 2)); x2 = ('CMP', PC, '=', False, ('num', 1)); x3 = ('CMP', PA, '=', False, ('num', 2)); x4 = ('CMP', PC, '=', True, ('num', 1))
+    return [('leaf', lambda l: ('OBS', l)), ('AND', lambda l: ('OBS', ('CAND', (l, x1)))), ('OR', lambda l: ('OBS', ('COR', (l, x1)))),
+            ('AND over OR (outside)', lambda l: ('OBS', ('CAND', (l, ('CPAREN', ('COR', (x1, x2))))))), ('AND over OR (inside)', lambda l: ('OBS', ('CAND', (x3, ('CPAREN', ('COR', (l, x2))))))),
+            ('AND over OR (negated sibling)', lambda l: ('OBS', ('CAND', (x4, ('CPAREN', ('COR', (l, x3))))))),
+            ('OR of ANDs', lambda l: ('OBS', ('COR', (('CAND', (l, x1)), ('CAND', (x3, x2)))))), ('absorbable OR', lambda l: ('OBS', ('COR', (l, ('CAND', (l, x1)))))),
+            ('observation AND', lambda l: ('OAND', (('OBS', l), ('OBS', x1)))), ('observation OR', lambda l: ('OOR', (('OBS', l), ('OBS', x1)))),
+            ('FOLLOWEDBY', lambda l: ('FBY', (('OBS', l), ('OBS', x1)))), ('observation AND over OR', lambda l: ('OAND', (('OBS', l), ('PAREN', ('OOR', (('OBS', x1), ('OBS', x2))))))),
+            ('REPEATS', lambda l: ('QUAL', ('OBS', l), ('REPEATS', 2))), ('WITHIN', lambda l: ('QUAL', ('PAREN', ('OAND', (('OBS', l), ('OBS', x1)))), ('WITHIN', 5.0)))]
+
+
+def paths_of(t):
+    if not isinstance(t, tuple): return set()
+    if t and t[0] == 'CMP': return {t[1]}
+    out = set()
+    for x in t:
+        if isinstance(x, tuple): out |= paths_of(x)
+    return out
 
 
 # ------------------------------------------------------------------ building the same tree through the public model classes
